@@ -29,7 +29,7 @@ import (
 	"github.com/dolthub/dolt/go/zzverif/vh"
 )
 
-const c07Rule = "stateful: a DAG of 4..40 chunks with synthetic references (0-3 refs to earlier nodes; forged colliding and genuine addresses) over a local table-file store (memtable 8/16/64 KiB) or a journal store (memtable shrunk alike); <= 26 actions of put(node) in any order (so children may be missing or arrive after the parent), putClosure(node) children-first or parents-first, commit(node) including nodes that were never written, AddTableFilesToManifest of a hand-built table file whose chunks may reference absent addresses, close+reopen. Oracle after every action: a fresh handle on the directory has Root() == the last successfully committed root and every address reachable from it (harness decoder) is present with the written bytes; a commit/add-file whose closure or file has a missing reference must fail with ErrDanglingRef / an error and leave Root() unchanged; a rejection is only allowed when something was dangling; everything flushed or committed stays readable; after a rejection the handle keeps working. Non-trivial: >= 1 rejected dangling write followed by >= 1 successful commit of a root with a non-empty closure."
+const c07Rule = "stateful: a DAG of 4..40 chunks with synthetic references (0-3 refs to earlier nodes; forged colliding and genuine addresses) over a local table-file store (memtable 8/16/64 KiB) or a journal store (memtable shrunk alike); <= 26 actions of put(node) in any order (so children may be missing or arrive after the parent), putAtLevel(node): the memtable is first filled with a reference-free filler to a drawn level relative to that Put's overflow point (exactly fits / overflows by 1 byte / by far / memtable full / one byte to spare / any) so that every role meets a size-triggered flush, optionally followed by commit(node), putClosure(node) children-first or parents-first, commit(node) including nodes that were never written, AddTableFilesToManifest of a hand-built table file whose chunks may reference absent addresses, close+reopen. Oracle after every action: a fresh handle on the directory has Root() == the last successfully committed root and every address reachable from it (harness decoder) is present with the written bytes; a commit/add-file whose closure or file has a missing reference must fail with ErrDanglingRef / an error and leave Root() unchanged; a rejection is only allowed when something was dangling; everything flushed or committed stays readable; after a rejection the handle keeps working. Non-trivial: >= 1 rejected dangling write followed by >= 1 successful commit of a root with a non-empty closure."
 
 type c07State struct {
 	rt        *rapid.T
@@ -190,7 +190,12 @@ func (s *c07State) closureMissing(root hash.Hash, vis func(hash.Hash) bool) (mis
 }
 
 func (s *c07State) put(i int, label string) bool {
-	c := s.node(i)
+	return s.putChunk(s.node(i), fmt.Sprintf("%s(%d)", label, i))
+}
+
+// putChunk writes one chunk and keeps the model's memtable/table bookkeeping. It also records
+// when this very Put was the one that did not fit and made the store flush the memtable.
+func (s *c07State) putChunk(c vc.Chunk, what string) bool {
 	s.refreshMaybe()
 	defer s.refreshMaybe()
 	prev := s.mem()
@@ -198,24 +203,89 @@ func (s *c07State) put(i int, label string) bool {
 	err := s.st.Put(s.ctx, c.C(), c07GetAddrs)
 	cur := s.mem()
 	if err != nil {
-		s.op("%s(%d)=ERR", label, i)
+		s.op("%s=ERR", what)
 		if !errors.Is(err, ErrDanglingRef) {
-			s.fail("Put(node %d): unexpected error %v", i, err)
+			s.fail("Put %s: unexpected error %v", what, err)
 		}
 		if len(dang) == 0 && !s.uncertain(prev, hash.Hash{}) {
-			s.fail("Put(node %d) was rejected with %v although every chunk in the memtable had all its references present", i, err)
+			s.fail("Put %s was rejected with %v although every chunk in the memtable had all its references present", what, err)
 		}
 		s.rejected++
 		s.classes["rejected_at_flush"] = true
 		return false
 	}
-	s.op("%s(%d)", label, i)
+	s.op("%s", what)
+	flushed := false
 	for h := range prev {
 		if !cur[h] {
 			s.T[h] = true // flushed
+			flushed = true
+		}
+	}
+	if flushed && cur[c.Addr] {
+		// this Put did not fit: the store flushed the memtable and put the chunk into a fresh one
+		s.classes["put_triggered_flush"] = true
+		if len(c.Refs) > 0 {
+			s.classes["referencing_put_triggered_flush"] = true
+			for _, r := range c.Refs {
+				if !s.T[r] && !cur[r] && !s.maybe[r] {
+					s.classes["dangling_put_triggered_flush"] = true
+				}
+			}
 		}
 	}
 	return true
+}
+
+// putAtLevel first fills the memtable with a reference-free filler chunk up to a drawn level
+// relative to the overflow point of node i's Put (far below, exactly fits, overflows by one byte,
+// overflows by far), then puts node i: every role (referencing chunk, child, root) meets every
+// position relative to a size-triggered flush.
+func (s *c07State) putAtLevel(i int) {
+	rt := s.rt
+	c := s.node(i)
+	var used uint64
+	if s.st.memtable != nil {
+		used = s.st.memtable.totalData
+	}
+	size := uint64(len(c.Data))
+	// level = bytes in the memtable before the Put; the Put fits iff level+size <= memSz
+	fits := int64(s.memSz) - int64(size)
+	var level int64
+	kind := rapid.IntRange(0, 5).Draw(rt, "level.kind")
+	switch kind {
+	case 0:
+		level = fits // exactly fits
+	case 1:
+		level = fits + 1 // overflows by one byte
+	case 2:
+		level = fits - 1
+	case 3:
+		level = fits + int64(rapid.IntRange(2, int(size)).Draw(rt, "level.over")) // overflows by far
+	case 4:
+		level = int64(s.memSz) // memtable exactly full
+	default:
+		level = int64(rapid.IntRange(0, int(s.memSz)).Draw(rt, "level.any"))
+	}
+	if level > int64(s.memSz) {
+		level = int64(s.memSz)
+	}
+	if need := level - int64(used); need >= 3 {
+		// a filler of exactly |need| bytes (if the filler itself does not fit it starts a fresh memtable;
+		// the level is then simply different, which is fine)
+		payload := vc.RandBytes(uint64(len(s.set.Chunks))*7919+uint64(s.steps), int(need))
+		f := vc.Chunk{Data: payload, Kind: "filler"}
+		// EncodeRefs adds a 3-byte header for "no references": keep the total at |need|
+		f.Data = vc.EncodeRefs(nil, payload[:need-3])
+		f.Addr, f.Genuine = hash.Of(f.Data), true
+		if s.set.Add(f) {
+			if !s.putChunk(f, fmt.Sprintf("fill(%d bytes)", len(f.Data))) {
+				return
+			}
+		}
+	}
+	s.classes[fmt.Sprintf("level_kind=%d", kind)] = true
+	s.putChunk(c, fmt.Sprintf("putAt[%s](%d)", []string{"fits", "over1", "under1", "overfar", "full", "any"}[kind], i))
 }
 
 func (s *c07State) putClosure(i int, childrenFirst bool) {
@@ -575,8 +645,15 @@ func c07Case(rt *rapid.T, rec *vh.Recorder) {
 			return rapid.IntRange(0, n-1).Draw(rt, label)
 		}
 		switch {
-		case a < 4:
+		case a < 2:
 			s.put(pick("put.node"), "put")
+		case a < 5:
+			// a Put placed relative to the memtable's overflow point, often committed right away
+			k := pick("level.node")
+			s.putAtLevel(k)
+			if rapid.Bool().Draw(rt, "level.commit") {
+				s.commit(k)
+			}
 		case a < 7:
 			s.putClosure(pick("up.node"), true)
 		case a < 9:
